@@ -11,10 +11,15 @@
      (C03_bump_sound, C03_bump_discharges_H3, on the reference semantics).
    * (H1) for the optimized finders of runner.go:1468-1945 (Model/Finder.v, tied to the code at every
      position by leg c03-finder): second half of this file, each from the compile-time fact it relies on.
-   * NOT proved here: (H1) for the Boyer-Moore scan (the machine is not modelled) and the raw-string
-     prefilters.  These are checked on the implementation at every position by harness leg c03-accel
-     (candidate finder vs table of successful attempts) and replayed through this model by leg
-     c03-scanmodel. *)
+   * the Boyer-Moore prefix machine (syntax/prefix.go newBmPrefix / Scan / IsMatch; Model/BM.v, tied to the
+     code - tables and every index of every small text - by leg c03-bm): last part of this file.  Scan returns
+     the FIRST occurrence in scan direction or -1 (C03_bm_scan_sound: sound and complete, both directions,
+     case-insensitive and unicode rows included), from table invariants proved of newBmPrefix's construction;
+     this discharges the two Boyer-Moore hypotheses of C03_finder_default (C03_finder_default_with_bm) and
+     composes with C04 end to end (C03_mode_bm_sound_partial).
+   * NOT proved here: (H1) for the raw-string prefilters (C02's business).  The accelerators are also checked on
+     the implementation at every position by harness leg c03-accel (candidate finder vs table of successful
+     attempts) and replayed through this model by leg c03-scanmodel. *)
 From Verif Require Import Base.Prelude Base.Utf8 Model.Tree Model.Spec Model.Scan Model.Finder Model.Analysis
   Proofs.ScanProofs Proofs.ScanBumpProofs Proofs.FinderProofs Proofs.FinderCompose.
 
@@ -1287,3 +1292,262 @@ Theorem C03_finder_default_answers_ok :
     exists r, fd_find_first_char_default text set_in lower rtl anchors ts bm bm_scan o fc p = Ok r.
 Proof. exact cf_default_finder_answers_ok. Qed.
 Print Assumptions C03_finder_default_answers_ok.
+(* ==========================================================================================
+   The Boyer-Moore prefix machine (syntax/prefix.go:412-766; Model/BM.v; proofs Proofs/BMProofs.v,
+   Proofs/BMCompose.v).  The model is the code AFTER /repo d3ed698 (Scan consults the unicode rows for
+   chTest <= 0xffff; with "<" the rune U+FFFF got the default advance and an occurrence was skipped:
+   C03_bm_scan_before_repair_skips below).
+   ========================================================================================== *)
+From Verif Require Import Model.BM Proofs.BMProofs Proofs.BMCompose.
+
+(* newBmPrefix never faults and never runs out of its own fuel on a non-empty pattern of non-negative
+   runes (after lower-casing); when it answers nil some rune lies beyond U+FFFF; a machine it returns has
+   sound tables *)
+Theorem C03_bm_new_total :
+  forall (lower : Z -> Z) (pattern : list Z) (ci rtl : bool),
+    pattern <> [] -> (forall x, In x pattern -> 0 <= bm_fold lower ci x) ->
+    exists r, bm_new lower pattern ci rtl = Ok r /\
+      match r with
+      | None => exists x, In x pattern /\ 65535 < bm_fold lower ci x
+      | Some t => bm_pattern t = map (bm_fold lower ci) pattern /\ bm_rtl t = rtl /\ bm_ci t = ci /\ bmp_tab_ok t
+      end.
+Proof. exact bmp_new_ok. Qed.
+Print Assumptions C03_bm_new_total.
+
+(* THE TABLE INVARIANTS, proved of the construction (no side condition: a fault / nil is not Ok (Some t)).
+   bmp_tab_ok t = the pattern is non-empty and
+     bmp_pos_ok: positive has one entry per pattern index i, with the sign of the scan direction and
+                 1 <= |positive[i]| <= distance from i to the far end of the pattern, and NO shift s with
+                 1 <= s < |positive[i]| is viable, where [bmp_viable rtl i s] = "the pattern moved by s agrees
+                 with itself on the tail beyond i and differs at i" (the only shifts under which an occurrence
+                 can exist once the tail beyond i matched the text and i did not);
+     bmp_neg_ok: for EVERY rune c >= 0 the bad-character lookup Scan performs (negativeASCII below 128, the
+                 unicode row c>>8 when there is one, else the default advance) does not fault and yields a with
+                 |a| = distance from the tail of the pattern to the occurrence of c nearest to the tail
+                 (whole length when c does not occur): no pattern index nearer to the tail holds c. *)
+Theorem C03_bm_tables_sound :
+  forall (lower : Z -> Z) (pattern : list Z) (ci rtl : bool) (t : bmtab),
+    bm_new lower pattern ci rtl = Ok (Some t) ->
+    bm_pattern t = map (bm_fold lower ci) pattern /\ bm_rtl t = rtl /\ bm_ci t = ci /\ bmp_tab_ok t.
+Proof. exact bmp_new_Some_ok. Qed.
+Print Assumptions C03_bm_tables_sound.
+
+(* SCAN IS SOUND AND COMPLETE: for every pattern newBmPrefix accepts, every text, every fuel, every window
+   and index with beglimit <= index <= endlimit, an answer r of Scan is the FIRST position at-or-beyond
+   index in scan direction at which the pattern occurs inside the window, and -1 means there is none.
+   "occurs at k" = starts at k (left-to-right) / ends at k (right-to-left), inside the text, rune by rune
+   under the fold the machine uses (unicode.ToLower on both sides when caseInsensitive).  The skip tables
+   never overshoot. *)
+Theorem C03_bm_scan_sound :
+  forall (lower : Z -> Z) (pattern : list Z) (ci rtl : bool) (t : bmtab) (text : list Z)
+         (fuel : nat) (index beglimit endlimit r : Z),
+    bm_new lower pattern ci rtl = Ok (Some t) ->
+    beglimit <= index <= endlimit ->
+    bm_scan lower t text fuel index beglimit endlimit = Ok r ->
+    let m := zlen pattern in
+    let occurs := fun k => forall j, 0 <= j < m ->
+        let q := if rtl then k - m + j else k + j in
+        0 <= q < zlen text /\
+        bm_fold lower ci (nth (Z.to_nat q) text 0) = bm_fold lower ci (nth (Z.to_nat j) pattern 0) in
+    let fits := fun k => if rtl then beglimit <= k - m else k + m <= endlimit in
+    (r = -1 /\ forall k, sc_ord rtl index k -> fits k -> ~ occurs k) \/
+    (sc_ord rtl index r /\ fits r /\ occurs r /\
+     forall k, sc_ord rtl index k -> sc_before rtl k r -> ~ occurs k).
+Proof. exact bmp_scan_sound_stmt. Qed.
+Print Assumptions C03_bm_scan_sound.
+
+(* ... and it always answers: no index fault, len(text)+1 turns of the outer loop suffice, on a text of
+   non-negative runes (a negative rune indexes negativeASCII out of range in Go as in the model) *)
+Theorem C03_bm_scan_total :
+  forall (lower : Z -> Z) (pattern : list Z) (ci rtl : bool) (t : bmtab) (text : list Z)
+         (index beglimit endlimit : Z),
+    bm_new lower pattern ci rtl = Ok (Some t) ->
+    (forall x, In x text -> 0 <= bm_fold lower ci x) ->
+    0 <= beglimit -> endlimit <= zlen text -> beglimit <= index <= endlimit ->
+    exists r, bm_scan lower t text (S (length text)) index beglimit endlimit = Ok r.
+Proof. exact bmp_scan_total_stmt. Qed.
+Print Assumptions C03_bm_scan_total.
+
+(* IsMatch (the anchored test, runner.go:1413) = "the pattern occurs at index, inside the window" *)
+Theorem C03_bm_is_match_sound :
+  forall (lower : Z -> Z) (pattern : list Z) (ci rtl : bool) (t : bmtab) (text : list Z)
+         (index beglimit endlimit : Z),
+    bm_new lower pattern ci rtl = Ok (Some t) ->
+    0 <= beglimit -> endlimit <= zlen text ->
+    exists b, bm_is_match lower t text index beglimit endlimit = Ok b /\
+      (b = true <->
+       (if rtl then index <= endlimit /\ beglimit <= index - zlen pattern
+        else beglimit <= index /\ index + zlen pattern <= endlimit) /\
+       bmp_occurs lower pattern ci rtl text index).
+Proof. exact bmp_is_match_stmt. Qed.
+Print Assumptions C03_bm_is_match_sound.
+
+(* the Scan answers as findFirstCharDefault uses them (window (0, Runtextend)) satisfy [fd_bm_scan_fact],
+   the sixth hypothesis of C03_finder_default, given the compile-time fact behind Code.BmPrefix *)
+Theorem C03_bm_scan_fact :
+  forall (lower : Z -> Z) (t : bmtab) (text : list Z) (R : Type) (exec : Z -> option R * Z),
+    bmp_tab_ok t ->
+    (forall i, 0 <= i < zlen text -> 0 <= bmp_tx lower t text i) ->
+    bmp_prefix_fact lower t text R exec ->
+    fd_bm_scan_fact R text exec (bm_rtl t) (bm_scan_fn lower t text).
+Proof. exact bmp_scan_fact. Qed.
+Print Assumptions C03_bm_scan_fact.
+
+(* ALL of findFirstCharDefault with the MODELLED machine in place of the oracles: C03_finder_default
+   without its two Boyer-Moore hypotheses.  What remains is the compile-time fact "every successful
+   attempt starts (left-to-right) / ends (right-to-left) with the literal", both directions, any
+   caseInsensitive flag. *)
+Theorem C03_finder_default_with_bm :
+  forall (lower : Z -> Z) (R : Type) (text : list Z) (exec : Z -> option R * Z) (set_in : Z -> Z -> bool)
+         (pattern : list Z) (ci rtl : bool) (t : bmtab)
+         (anchors ts : Z) (o : option fdopts) (fc : option fdfc),
+    let n := zlen text in
+    let succeeds := fun x => fst (exec x) <> None in
+    (abit anchors ANCH_BEGINNING = true -> forall x, sc_in_text n x -> succeeds x -> x = 0) ->
+    (abit anchors ANCH_START = true -> forall x, sc_in_text n x -> succeeds x -> x = ts) ->
+    (abit anchors ANCH_ENDZ = true -> forall x, sc_in_text n x -> succeeds x ->
+       x = n \/ (x = n - 1 /\ nth (Z.to_nat x) text 0 = 10)) ->
+    (abit anchors ANCH_END = true -> forall x, sc_in_text n x -> succeeds x -> x = n) ->
+    bm_new lower pattern ci rtl = Ok (Some t) ->
+    (forall x, In x text -> 0 <= bm_fold lower ci x) ->
+    (forall x, sc_in_text n x -> succeeds x -> bmp_occurs lower pattern ci rtl text x) ->
+    sc_H1_true R n rtl (fd_total (fd_find_first_char_default text set_in lower rtl anchors ts
+                          (Some (bm_is_match_fn lower t text)) (Some (bm_scan_fn lower t text)) o fc)) exec /\
+    sc_H1_false R n rtl (fd_total (fd_find_first_char_default text set_in lower rtl anchors ts
+                           (Some (bm_is_match_fn lower t text)) (Some (bm_scan_fn lower t text)) o fc)) exec.
+Proof. exact bmp_finder_default_with_bm. Qed.
+Print Assumptions C03_finder_default_with_bm.
+
+(* END TO END on a tree, over Spec.find: the analysis publishes a Boyer-Moore prefix (C04: getPrefix),
+   newBmPrefix builds the machine, and the scan loop with findFirstCharDefault - Scan when Code.Anchors has
+   none of the four anchor bits, the anchor jumps followed by IsMatch when it has one - returns what the
+   reference search returns, whatever FindOptimizations / FcPrefix hold.  The anchor facts come from
+   Code.Anchors (C04_anchors_sound), the prefix fact from C04_bm_prefix_sound_partial.
+   PARTIAL: left-to-right patterns and a case-sensitive prefix only - exactly what
+   C04_bm_prefix_sound_partial covers.  Missing for the rest: the analysis-side fact for
+   [bm_prefix_dir true] ("the text before a successful right-to-left attempt ends with the literal's
+   tail") and for the CaseInsensitive flag (never set on a real tree); relative to that fact both are
+   covered by C03_finder_default_with_bm. *)
+Theorem C03_mode_bm_sound_partial :
+  forall (e : env) (fuel : nat) (root : node) (bumpq : Z -> Z),
+    shape_ok false root = true ->
+    (forall x, 0 <= x <= tlen e -> exists r, attempt e fuel root x = Ok r) ->
+    sc_H3 st (tlen e) false (bp_exec e fuel root bumpq) ->
+    forall (str : list Z) (t : bmtab) (o : option fdopts) (fc : option fdfc),
+    bm_prefix root = Some (str, false) ->
+    bm_new (lower e) str false false = Ok (Some t) ->
+    (forall x, In x (txt e) -> 0 <= x) ->
+    forall start prevlen, 0 <= start <= tlen e ->
+    exists r, find e fuel root false start prevlen = Ok r /\
+      scan (tlen e) false (min_len root)
+           (fd_total (fd_find_first_char_default (txt e) (set_in e) (lower e) false (get_anchors root) (tstart e)
+                        (Some (bm_is_match_fn (lower e) t (txt e))) (Some (bm_scan_fn (lower e) t (txt e))) o fc))
+           (bp_exec e fuel root bumpq) start prevlen = Ok r.
+Proof. exact bmc_mode_bm_sound. Qed.
+Print Assumptions C03_mode_bm_sound_partial.
+
+(* ---- non-vacuity ---- *)
+Definition bx_id (x : Z) : Z := x.
+Definition bx_low (x : Z) : Z := if (65 <=? x) && (x <=? 90) then x + 32 else x.
+Definition bx_tab (lower : Z -> Z) (p : list Z) (ci rtl : bool) : bmtab :=
+  match bm_new lower p ci rtl with
+  | Ok (Some t) => t
+  | _ => {| bm_pattern := []; bm_positive := []; bm_negascii := []; bm_has_uni := false; bm_uni := fun _ => None;
+            bm_low := 0; bm_high := 0; bm_rtl := rtl; bm_ci := ci |}
+  end.
+Definition bx_with_positive (t : bmtab) (pos : list Z) : bmtab :=
+  {| bm_pattern := bm_pattern t; bm_positive := pos; bm_negascii := bm_negascii t; bm_has_uni := bm_has_uni t;
+     bm_uni := bm_uni t; bm_low := bm_low t; bm_high := bm_high t; bm_rtl := bm_rtl t; bm_ci := bm_ci t |}.
+
+(* "abcab": the tables; positive[2] = 3 is the good-suffix shift (tail "ab" matched, 'c' rejected) *)
+Example C03_bm_tables_witness :
+  let t := bx_tab bx_id [97; 98; 99; 97; 98] false false in
+  bm_new bx_id [97; 98; 99; 97; 98] false false = Ok (Some t) /\
+  bm_positive t = [1; 1; 3; 1; 1] /\ zlen (bm_negascii t) = 128 /\ bm_has_uni t = false /\
+  bm_low t = 97 /\ bm_high t = 99 /\
+  map (bm_neg_lookup t) [97; 98; 99; 120; 233] = [Ok (Some 1); Ok (Some 0); Ok (Some 2); Ok (Some 5); Ok None] /\
+  bm_positive (bx_tab bx_id [98; 97; 98; 97; 98] false false) = [1; 2; 1; 4; 1] /\
+  bm_positive (bx_tab bx_id [97; 98; 97; 98] false true) = [-1; -1; -2; -1].
+Proof. vm_compute. repeat split; reflexivity. Qed.
+
+(* periodic pattern where the good-suffix shift matters: "abcab" in "xxbabcab".  At the first alignment the tail
+   "ab" matches and 'b' is rejected where 'c' is wanted; the bad-character rule alone would move by -2 (ignored),
+   positive[2] = 3 moves exactly onto the occurrence at 3.  A table with positive[2] = 4 (one too many) LOSES it. *)
+Example C03_bm_scan_periodic_witness :
+  let t := bx_tab bx_id [97; 98; 99; 97; 98] false false in
+  let text := [120; 120; 98; 97; 98; 99; 97; 98] in
+  bm_scan bx_id t text 9 0 0 8 = Ok 3 /\
+  bm_scan bx_id (bx_with_positive t [1; 1; 4; 1; 1]) text 9 0 0 8 = Ok (-1) /\
+  bm_scan bx_id t text 9 4 0 8 = Ok (-1) /\
+  bm_is_match bx_id t text 3 0 8 = Ok true /\ bm_is_match bx_id t text 0 0 8 = Ok false /\
+  bm_scan_fn bx_id t text 0 = 3 /\ bm_is_match_fn bx_id t text 3 = true.
+Proof. vm_compute. repeat split; reflexivity. Qed.
+
+(* right-to-left: "abab" in "abababx"; positions are END positions and the scan goes downwards *)
+Example C03_bm_scan_rtl_witness :
+  let t := bx_tab bx_id [97; 98; 97; 98] false true in
+  let text := [97; 98; 97; 98; 97; 98; 120] in
+  bm_scan bx_id t text 8 7 0 7 = Ok 6 /\ bm_scan bx_id t text 8 5 0 7 = Ok 4 /\
+  bm_scan bx_id t text 8 3 0 7 = Ok (-1) /\ bm_is_match bx_id t text 6 0 7 = Ok true /\
+  bm_is_match bx_id t text 5 0 7 = Ok false.
+Proof. vm_compute. repeat split; reflexivity. Qed.
+
+(* case-insensitive: the pattern is lower-cased by the constructor, the text rune by rune in Scan; without the
+   lower-casing of the text (lower := identity in Scan) the occurrence "aBc" is missed *)
+Example C03_bm_scan_ci_witness :
+  let t := bx_tab bx_low [65; 98; 67] true false in
+  bm_pattern t = [97; 98; 99] /\
+  bm_scan bx_low t [120; 97; 66; 99; 120] 6 0 0 5 = Ok 1 /\
+  bm_scan bx_id t [120; 97; 66; 99; 120] 6 0 0 5 = Ok (-1).
+Proof. vm_compute. repeat split; reflexivity. Qed.
+
+(* unicode rows: "éa" makes negativeASCII the 256-entry row 0; "āa" (U+0101) allocates row 1 only;
+   a rune of an absent row / beyond U+FFFF gets the default advance (None) *)
+Example C03_bm_scan_unicode_witness :
+  let t4 := bx_tab bx_id [233; 97] false false in
+  let t5 := bx_tab bx_id [257; 97] false false in
+  zlen (bm_negascii t4) = 256 /\ bm_has_uni t4 = true /\
+  map (bm_neg_lookup t4) [233; 234; 300] = [Ok (Some 1); Ok (Some 2); Ok None] /\
+  zlen (bm_negascii t5) = 128 /\
+  map (bm_neg_lookup t5) [257; 258; 233; 70000] = [Ok (Some 1); Ok (Some 2); Ok None; Ok None] /\
+  bm_scan bx_id t4 [97; 233; 233; 97] 5 0 0 4 = Ok 2 /\
+  bm_scan bx_id t5 [97; 257; 258; 257; 97] 6 0 0 5 = Ok 3.
+Proof. vm_compute. repeat split; reflexivity. Qed.
+
+(* the constructor's other answers: nil for an astral rune, a fault for the empty pattern / a negative rune *)
+Example C03_bm_new_nil_and_faults :
+  bm_new bx_id [97; 128512; 98] false false = Ok None /\
+  bm_new bx_id [] false false = Crash 1 /\ bm_new bx_id [-1] false true = Crash 1.
+Proof. vm_compute. repeat split; reflexivity. Qed.
+
+(* NEGATIVE: Scan as it was before /repo d3ed698 ("chTest < 0xffff").  newBmPrefix records advance 1 for U+FFFF in
+   "￿b", the old lookup answered "no entry" for that rune, Scan advanced by the whole length and skipped the
+   occurrence at 1 of "x￿b" (real engine: MustCompile("￿b").FindRunesMatch("x￿b") == nil; right-to-left
+   "b￿" on "b￿y" through the string API).  With the repaired lookup both are found. *)
+Example C03_bm_scan_before_repair_skips :
+  let t := bx_tab bx_id [65535; 98] false false in
+  let u := bx_tab bx_id [98; 65535] false true in
+  bm_neg_lookup t 65535 = Ok (Some 1) /\ bm_neg_lookup_old t 65535 = Ok None /\
+  bm_scan bx_id t [120; 65535; 98] 4 0 0 3 = Ok 1 /\
+  bm_scan_gen bx_id t [120; 65535; 98] (bm_neg_lookup_old t) 4 0 0 3 = Ok (-1) /\
+  bm_scan bx_id u [98; 65535; 121] 4 3 0 3 = Ok 2 /\
+  bm_scan_gen bx_id u [98; 65535; 121] (bm_neg_lookup_old u) 4 3 0 3 = Ok (-1).
+Proof. vm_compute. repeat split; reflexivity. Qed.
+
+(* end to end: abc[a-z] on "xxabcd".  getPrefix publishes "abc", newBmPrefix accepts it, findFirstCharDefault's
+   Boyer-Moore branch jumps from 0 to 2 and gives up from 3 on; the scan loop with it = Spec.find *)
+Example C03_mode_bm_witness :
+  let e := {| txt := [120; 120; 97; 98; 99; 100]; tstart := 0; ecma := false; endz_strict := false;
+              set_in := fun _ x => (97 <=? x) && (x <=? 122); lower := fun x => x;
+              is_word := fun _ => false; is_eword := fun _ => false |} in
+  let t := bx_tab (lower e) [97; 98; 99] false false in
+  let F := fd_find_first_char_default (txt e) (set_in e) (lower e) false (get_anchors ex_root_abcw) (tstart e)
+             (Some (bm_is_match_fn (lower e) t (txt e))) (Some (bm_scan_fn (lower e) t (txt e))) None None in
+  shape_ok false ex_root_abcw = true /\
+  bm_prefix ex_root_abcw = Some ([97; 98; 99], false) /\ bm_new (lower e) [97; 98; 99] false false = Ok (Some t) /\
+  get_anchors ex_root_abcw = 0 /\
+  F 0 = Ok (true, 2) /\ F 2 = Ok (true, 2) /\ F 3 = Ok (false, 6) /\
+  find e 10 ex_root_abcw false 0 (-1) = Ok (Some {| pos := 6; caps := [(0, [(2, 4)])] |}) /\
+  scan 6 false (min_len ex_root_abcw) (fd_total F) (bp_exec e 10 ex_root_abcw (fun p => p)) 0 (-1)
+    = Ok (Some {| pos := 6; caps := [(0, [(2, 4)])] |}).
+Proof. vm_compute. repeat split; reflexivity. Qed.
